@@ -95,6 +95,7 @@ func checkC05(c *Ctx, r *Report) {
 	checkRequiredness(c, r, "C05.e")
 	checkWireNameKeys(c, r, "C05.a")
 	checkEngineOnlyRegisters(c, r, "C05.g")
+	ruleSkipInventory(c, r, "C05.h", loadSkipTable(c.VerifDir), 1, "core/visitors")
 
 	// C05.f conversion arms cover the primitives validation lets through
 	checkConversionArms(c, r, "C05.f")
